@@ -23,6 +23,7 @@ def run(chk):
     r19c(chk)
     r19d(chk)
     r19e(chk)
+    r19f(chk)
 
 
 def _replace_functions(m):
@@ -300,3 +301,26 @@ def _eval_flatten(chk, rid, m):
     reb = sorted((rep, ign) for sh, rep, ign in replaced)
     want_reb = sorted((('Replacer', h), True) for h in ('A1.css', 'A.css', 'B.css', 'D.css'))
     chk.ob(rid, INIT, '_resolve_import', 'the URLs of every resolved sheet are rebased once, relative to its import href, nested @import rules untouched', reb == want_reb, f'replaceUrls calls: {reb}')
+
+
+def r19f(chk, rid='R19.f'):
+    chk.rule(rid, 'a replaced URL is stored as given, decided by evaluation: URIValue._setUri and the getter of the uri property are evaluated on their syntax trees: for URLs with spaces, quotes, parentheses, backslashes followed by hex digits and non-ASCII characters the value read back is the value that was set (no serialise-and-reparse round trip in between, which would interpret backslashes as CSS escapes); so replacing with the identity is a no-op')
+    from sa.absint import Evaluator, Raised, Record
+
+    rel = 'cssutils/css/value.py'
+    m = chk.repo.mod(rel)
+    fn = m.get('URIValue._setUri')
+    prop = [st for st in m.get('URIValue', ast.ClassDef).body if isinstance(st, ast.Assign) and any(isinstance(t, ast.Name) and t.id == 'uri' for t in st.targets)]
+    if len(prop) != 1 or not (isinstance(prop[0].value, ast.Call) and text(prop[0].value.func) == 'property' and prop[0].value.args):
+        raise AnalysisError('URIValue.uri is not a property(getter, setter)')
+    getter = prop[0].value.args[0]
+    bad = []
+    urls = ['a.png', 'img\\5c bg.png', 'c:\\dir\\file.png', 'x y.png', 'q"uote.png', 'a)b(c.png', 'caf\xe9.png', '', 'data:image/png;base64,AAA=']
+    for u in urls:
+        me = Record(_checkReadonly=lambda: None, _value='old', cssText='url(old)', _seq=None)
+        ev = Evaluator(fn, intrinsics={'cssutils': Record(helper=Record(uri=lambda x: 'url(' + x + ')'))}, module=m, cls='URIValue')
+        res = ev.run(self=me, uri=u)
+        back = ev.call_function(getter, [me], {}) if isinstance(getter, ast.Lambda) else None
+        if isinstance(res, Raised) or back != u:
+            bad.append(f'set {u!r}, read {back!r}' + (f' ({res!r})' if isinstance(res, Raised) else ''))
+    chk.ob(rid, rel, 'URIValue._setUri', f'all {len(urls)} URLs are read back exactly as they were set', not bad, '; '.join(bad[:3]) + ' - replaceUrls with the identity (and the path re-basing of resolveImports, which keeps absolute URLs) changes such URLs')
